@@ -119,6 +119,10 @@ func RunIfElseStmt(ctx *Task, stmt *ast.IfelseStmt) (any, ast.DType, *errchain.P
 		if err != nil {
 			return nil, ast.Invalid, err
 		}
+		if ctx.ProcExit() {
+			// exit() was called (or cancellation observed) while evaluating the condition
+			return nil, ast.Void, nil
+		}
 		if !condTrue(val, dtype) {
 			continue
 		}
@@ -194,6 +198,9 @@ func RunForStmt(ctx *Task, stmt *ast.ForStmt) (any, ast.DType, *errchain.PlError
 		if err != nil {
 			return nil, ast.Invalid, err
 		}
+		if ctx.ProcExit() {
+			return nil, ast.Void, nil
+		}
 	}
 
 	for {
@@ -202,7 +209,7 @@ func RunForStmt(ctx *Task, stmt *ast.ForStmt) (any, ast.DType, *errchain.PlError
 			if err != nil {
 				return nil, ast.Invalid, err
 			}
-			if !condTrue(val, dtype) {
+			if ctx.ProcExit() || !condTrue(val, dtype) {
 				break
 			}
 		}
@@ -235,6 +242,9 @@ func RunForStmt(ctx *Task, stmt *ast.ForStmt) (any, ast.DType, *errchain.PlError
 			if err != nil {
 				return nil, ast.Invalid, err
 			}
+			if ctx.ProcExit() {
+				break
+			}
 		}
 	}
 
@@ -248,6 +258,9 @@ func RunForInStmt(ctx *Task, stmt *ast.ForInStmt) (any, ast.DType, *errchain.PlE
 	iter, dtype, err := RunStmt(ctx, stmt.Iter)
 	if err != nil {
 		return nil, ast.Invalid, err
+	}
+	if ctx.ProcExit() {
+		return nil, ast.Void, nil
 	}
 
 	ctx.StackEnterNew()
